@@ -7,6 +7,7 @@ import (
 
 	"github.com/yuin/goldmark"
 	"github.com/yuin/goldmark/ast"
+	"github.com/yuin/goldmark/parser"
 	"github.com/yuin/goldmark/text"
 
 	"verif/cfg"
@@ -207,6 +208,25 @@ func (s *c06State) runHistory(spec cfg.Spec, md goldmark.Markdown, ops []c06Op) 
 			if !bytes.Equal(res.Out, ref.out) {
 				s.fail("history-dependent-output", spec, hist, o.Doc, ref.out, res.Out, "Convert on a used instance differs from a fresh instance of the same configuration")
 			}
+		case "convert-with-context":
+			// Parse with a context of the caller's (parser.WithContext, a new one each time) and Render: the same bytes as a plain
+			// Convert, and nothing of that context may stay behind in the parser
+			c.Begin(spec.Name(), src)
+			var out bytes.Buffer
+			var err error
+			pv, _ := core.Try(func() {
+				doc := md.Parser().Parse(text.NewReader(src), parser.WithContext(parser.NewContext()))
+				err = md.Renderer().Render(&out, src, doc)
+			})
+			c.End()
+			c.Eval()
+			c.Count("op_convert_with_context", 1)
+			if pv != nil || err != nil {
+				continue
+			}
+			if !bytes.Equal(out.Bytes(), ref.out) {
+				s.fail("history-dependent-output", spec, hist, o.Doc, ref.out, out.Bytes(), "Parse with a fresh caller-supplied context + Render on a used instance differs from Convert on a fresh instance")
+			}
 		case "parse":
 			c.Begin(spec.Name(), src)
 			var doc ast.Node
@@ -347,11 +367,13 @@ func runC06(c *core.Ctx) {
 			if r.Intn(3) > 0 {
 				di = r.Intn(nfixed)
 			}
-			switch r.Intn(6) {
+			switch r.Intn(7) {
 			case 0, 1, 2:
 				ops[i] = c06Op{Op: "convert", Doc: di}
 			case 3:
 				ops[i] = c06Op{Op: "parse", Doc: di}
+			case 6:
+				ops[i] = c06Op{Op: "convert-with-context", Doc: di}
 			default:
 				ops[i] = c06Op{Op: "render", Doc: r.Intn(8), K: r.Intn(3)}
 			}
